@@ -315,9 +315,13 @@ func parseDataInputTokens(cfg *SuiteConfig, input string) error {
 				return fmt.Errorf("invalid time spec %q: %w", tok, err)
 			}
 			cfg.TimeStep = secs
-		case strings.HasPrefix(tokU, "S"): // session data e.g. "S064"?
+		case strings.HasPrefix(tokU, "S"): // session data: "S" or "Snnn", e.g. "S064"
+			if len(tokU) != 1 {
+				if _, err := parseSuiteNumber(tokU[1:]); err != nil || len(tokU) != 4 {
+					return fmt.Errorf("invalid session spec %q", tok)
+				}
+			}
 			cfg.IncludeSession = true
-			// parse length if needed
 		default:
 			// unrecognized token
 			return fmt.Errorf("unknown data input token %q", tok)
